@@ -1,5 +1,5 @@
 /-
-`isoCond` for simple programs (no label, no named function expression), part 1.  Every binder ES5 resolution reports names a declared symbol of a scope record that
+`isoCond`, part 1.  Every binder ES5 resolution reports names a declared symbol of a scope record that
 is determined by the binder's (kind, scope) (`BOK`); on such binders the record renaming is one-to-one (from
 `remap_injective_visible`) and keeps what must be kept.
 -/
@@ -17,16 +17,22 @@ def RecVar (recs : List Rec) (s : SPath) (C : List Anc) : Prop :=
 def RecRoot (recs : List Rec) (C : List Anc) : Prop := ∃ R rest, recs = R :: rest ∧ R.chain = C
 
 /-- a binder that names a declared symbol of the record its (kind, scope) determines — or no declaration at all -/
-inductive BOK (recs : List Rec) (τ : Tau) : Binder → Prop where
-  | free (s : SPath) (n : String) : BOK recs τ { kind := .free, scope := s, name := n }
-  | args (s : SPath) (n : String) : BOK recs τ { kind := .args, scope := s, name := n }
+inductive BOK (recs : List Rec) (lc : SPath → Option (List Anc)) (τ : Tau) : Binder → Prop where
+  | free (s : SPath) (n : String) : BOK recs lc τ { kind := .free, scope := s, name := n }
+  | args (s : SPath) (n : String) : BOK recs lc τ { kind := .args, scope := s, name := n }
   | var (s : SPath) (n : String) (A : Anc) (C : List Anc) : RecVar recs s (A :: C) → A.kind = .func →
       ChainGood (A :: C) → C ≠ [] → n ∈ A.decl → (∀ m, tauN τ .var s m = applyTable A.remapped m) →
-      BOK recs τ { kind := .var, scope := s, name := n }
+      BOK recs lc τ { kind := .var, scope := s, name := n }
   | glob (n : String) (A : Anc) : RecRoot recs [A] → A.kind = .func → ChainGood [A] → n ∈ A.decl →
-      (∀ m, tauN τ .global [] m = applyTable A.remapped m) → BOK recs τ { kind := .global, scope := [], name := n }
+      (∀ m, tauN τ .global [] m = applyTable A.remapped m) → BOK recs lc τ { kind := .global, scope := [], name := n }
   | «catch» (s : SPath) (n : String) (u : Nat) (K : Anc) (C : List Anc) : RecVar recs s (K :: C) → K.kind = .catch n u →
-      BOK recs τ { kind := .catch, scope := s, name := n }
+      BOK recs lc τ { kind := .catch, scope := s, name := n }
+  | self (s : SPath) (n : String) (C : List Anc) : (∃ A, RecVar recs s (A :: C)) → ChainGood C → n ∈ ckeys (effRefs C) →
+      (∀ m, tauN τ .self s m = resolveChain C m) → BOK recs lc τ { kind := .self, scope := s, name := n }
+  /-- `lc s`: the chain of the scope the Identifier of the label defined at `s` is registered in -/
+  | label (s : SPath) (n : String) (C : List Anc) : lc s = some C → ChainGood C → n ∈ ckeys (effRefs C) →
+      (∀ m, tauN τ .label s m = resolveChain C m) → BOK recs lc τ { kind := .label, scope := s, name := n }
+  | nolabel (n : String) : BOK recs lc τ { kind := .nolabel, scope := [], name := n }
 
 /-- `Al` with, per environment record, the scope record that the look-ups by node path return -/
 inductive AlR (recs : List Rec) (τ : Tau) : List Layer → List Anc → Prop where
@@ -38,12 +44,22 @@ inductive AlR (recs : List Rec) (τ : Tau) : List Layer → List Anc → Prop wh
   | «catch» (p : SPath) (c : String) (E : List Layer) (K : Anc) (C : List Anc) :
       Al τ ({ kind := .catch, scope := p, names := [c] } :: E) (K :: C) → RecVar recs p (K :: C) → AlR recs τ E C →
       AlR recs τ ({ kind := .catch, scope := p, names := [c] } :: E) (K :: C)
+  | self (p : SPath) (g : String) (E : List Layer) (C : List Anc) :
+      Al τ ({ kind := .self, scope := p, names := [g] } :: E) C → (∃ A, RecVar recs p (A :: C)) → AlR recs τ E C →
+      AlR recs τ ({ kind := .self, scope := p, names := [g] } :: E) C
 
 theorem alR_al {recs : List Rec} {τ : Tau} {E : List Layer} {C : List Anc} (h : AlR recs τ E C) : Al τ E C := by
   cases h with
   | root names A h _ => exact h
   | func p names E A C h _ _ => exact h
   | «catch» p c E K C h _ _ => exact h
+  | self p g E C h _ _ => exact h
+
+theorem al_self_inv {τ : Tau} {p : SPath} {g : String} {E' : List Layer} {C : List Anc}
+    (h : Al τ ({ kind := .self, scope := p, names := [g] } :: E') C) :
+    (∀ n, tauN τ .self p n = resolveChain C n) ∧ g ∈ ckeys (effRefs C) ∧ Al τ E' C := by
+  cases h with
+  | self _ _ _ _ htau hg hal => exact ⟨htau, hg, hal⟩
 
 theorem alR_catch_inv {recs : List Rec} {τ : Tau} {p : SPath} {c : String} {E' : List Layer} {C' : List Anc}
     (h : AlR recs τ ({ kind := .catch, scope := p, names := [c] } :: E') C') :
@@ -55,8 +71,8 @@ theorem alR_catch_inv {recs : List Rec} {τ : Tau} {p : SPath} {c : String} {E' 
     exact ⟨K, C, u, rfl, hk, hrec, hr⟩
 
 /-- what a look-up in an aligned environment returns -/
-theorem lookupEnv_bok {recs : List Rec} {τ : Tau} : ∀ {E : List Layer} {C : List Anc}, AlR recs τ E C →
-    ∀ (n : String), BOK recs τ (lookupEnv E n) := by
+theorem lookupEnv_bok {recs : List Rec} {lc : SPath → Option (List Anc)} {τ : Tau} : ∀ {E : List Layer} {C : List Anc}, AlR recs τ E C →
+    ∀ (n : String), BOK recs lc τ (lookupEnv E n) := by
   intro E C h
   induction h with
   | root names A hal hrec =>
@@ -65,7 +81,7 @@ theorem lookupEnv_bok {recs : List Rec} {τ : Tau} : ∀ {E : List Layer} {C : L
     | root _ _ hk hnames htau hg =>
       by_cases hc : names.contains n = true
       · rw [lookupEnv_hit hc]
-        exact .glob n A hrec hk hg ((hnames n).1 (contains_iff.1 hc)) htau
+        exact .glob n A hrec hk hg (hnames n (contains_iff.1 hc)) htau
       · have hc' : names.contains n = false := by simpa using hc
         rw [lookupEnv_skip hc' (by simp)]
         exact .free [] n
@@ -75,7 +91,7 @@ theorem lookupEnv_bok {recs : List Rec} {τ : Tau} : ∀ {E : List Layer} {C : L
     | func _ _ _ _ _ hk hnames htau hg hC _ =>
       by_cases hc : names.contains n = true
       · rw [lookupEnv_hit hc]
-        exact .var p n A C hrec hk hg hC ((hnames n).1 (contains_iff.1 hc)) htau
+        exact .var p n A C hrec hk hg hC (hnames n (contains_iff.1 hc)) htau
       · have hc' : names.contains n = false := by simpa using hc
         by_cases ha : n = "arguments"
         · subst ha
@@ -95,18 +111,30 @@ theorem lookupEnv_bok {recs : List Rec} {τ : Tau} : ∀ {E : List Layer} {C : L
     · have hc' : ([c] : List String).contains n = false := by simpa using hc
       rw [lookupEnv_skip hc' (by simp)]
       exact ih n
+  | self p g E C hal hrec _ ih =>
+    intro n
+    obtain ⟨htau, hkey, hal'⟩ := al_self_inv hal
+    by_cases hc : ([g] : List String).contains n = true
+    · rw [lookupEnv_hit hc]
+      have : n = g := by simpa using hc
+      subst this
+      exact .self p n C hrec (al_good hal') hkey htau
+    · have hc' : ([g] : List String).contains n = false := by simpa using hc
+      rw [lookupEnv_skip hc' (by simp)]
+      exact ih n
 
 /-- a declared name of the variable environment of an aligned environment -/
-theorem var_bok {recs : List Rec} {τ : Tau} : ∀ {E : List Layer} {C : List Anc}, AlR recs τ E C →
+theorem var_bok {recs : List Rec} {lc : SPath → Option (List Anc)} {τ : Tau} : ∀ {E : List Layer} {C : List Anc}, AlR recs τ E C →
     ∀ {vk : BKind} {vs : SPath} {n : String}, varLayer E = some (vk, vs) → varDeclOK C n = true →
-    BOK recs τ { kind := vk, scope := vs, name := n } := by
+    BOK recs lc τ { kind := vk, scope := vs, name := n } := by
   intro E C h
   induction h with
   | root names A hal hrec =>
     intro vk vs n hv hd
     cases hal with
     | root _ _ hk hnames htau hg =>
-      simp only [varLayer] at hv
+      have hkc : (BKind.global == BKind.catch || BKind.global == BKind.self) = false := by decide
+      simp only [varLayer, hkc] at hv
       have hv' : (BKind.global, ([] : SPath)) = (vk, vs) := by simpa using hv
       cases hv'
       exact .glob n A hrec hk hg (by simpa [varDeclOK, hk] using hd) htau
@@ -114,7 +142,8 @@ theorem var_bok {recs : List Rec} {τ : Tau} : ∀ {E : List Layer} {C : List An
     intro vk vs n hv hd
     cases hal with
     | func _ _ _ _ _ hk hnames htau hg hC _ =>
-      simp only [varLayer] at hv
+      have hkc : (BKind.var == BKind.catch || BKind.var == BKind.self) = false := by decide
+      simp only [varLayer, hkc] at hv
       have hv' : (BKind.var, p) = (vk, vs) := by simpa using hv
       cases hv'
       exact .var p n A C hrec hk hg hC (by simpa [varDeclOK, hk] using hd) htau
@@ -122,9 +151,15 @@ theorem var_bok {recs : List Rec} {τ : Tau} : ∀ {E : List Layer} {C : List An
     intro vk vs n hv hd
     obtain ⟨K', C', u, he, hk, _⟩ := al_catch_inv hal
     cases he
-    simp only [varLayer, beq_self_eq_true, if_true] at hv
+    have hkc : (BKind.catch == BKind.catch || BKind.catch == BKind.self) = true := by decide
+    simp only [varLayer, hkc, if_true] at hv
     simp only [varDeclOK, hk, Bool.and_eq_true] at hd
     exact ih hv hd.2
+  | self p g E C hal hrec _ ih =>
+    intro vk vs n hv hd
+    have hkc : (BKind.self == BKind.catch || BKind.self == BKind.self) = true := by decide
+    simp only [varLayer, hkc, if_true] at hv
+    exact ih hv hd
 
 /-! ### one-to-one and keeping -/
 
@@ -147,7 +182,7 @@ theorem applyTable_inj_root {A : Anc} (hk : A.kind = .func) (hg : ChainGood [A])
   exact hg.ok.inj n1 k1 n2 k2 (by rw [resolveChain_single, resolveChain_single]; exact h)
 
 /-- the record renaming is one-to-one on good binders -/
-theorem mapBinder_inj {recs : List Rec} {τ : Tau} {b1 b2 : Binder} (h1 : BOK recs τ b1) (h2 : BOK recs τ b2)
+theorem mapBinder_inj {recs : List Rec} {lc : SPath → Option (List Anc)} {τ : Tau} {b1 b2 : Binder} (h1 : BOK recs lc τ b1) (h2 : BOK recs lc τ b2)
     (h : mapBinder τ b1 = mapBinder τ b2) : b1 = b2 := by
   have hk : b1.kind = b2.kind := by simpa [mapBinder] using congrArg Binder.kind h
   have hs : b1.scope = b2.scope := by simpa [mapBinder] using congrArg Binder.scope h
@@ -161,6 +196,9 @@ theorem mapBinder_inj {recs : List Rec} {τ : Tau} {b1 b2 : Binder} (h1 : BOK re
     | var s' n' A' C' _ _ _ _ _ _ => cases hk
     | glob n' A' _ _ _ _ _ => cases hk
     | «catch» s' n' u' K' C' _ _ => cases hk
+    | self s' n' C' _ _ _ _ => cases hk
+    | label s' n' C' _ _ _ _ => cases hk
+    | nolabel n' => cases hk
   | args s n =>
     cases h2 with
     | free s' n' => cases hk
@@ -168,12 +206,18 @@ theorem mapBinder_inj {recs : List Rec} {τ : Tau} {b1 b2 : Binder} (h1 : BOK re
     | var s' n' A' C' _ _ _ _ _ _ => cases hk
     | glob n' A' _ _ _ _ _ => cases hk
     | «catch» s' n' u' K' C' _ _ => cases hk
+    | self s' n' C' _ _ _ _ => cases hk
+    | label s' n' C' _ _ _ _ => cases hk
+    | nolabel n' => cases hk
   | var s n A C hrec hkA hg hC hd htau =>
     cases h2 with
     | free s' n' => cases hk
     | args s' n' => cases hk
     | glob n' A' _ _ _ _ _ => cases hk
     | «catch» s' n' u' K' C' _ _ => cases hk
+    | self s' n' C' _ _ _ _ => cases hk
+    | label s' n' C' _ _ _ _ => cases hk
+    | nolabel n' => cases hk
     | var s' n' A' C' hrec' hkA' hg' hC' hd' htau' =>
       simp only at hs hn
       subst hs
@@ -191,6 +235,9 @@ theorem mapBinder_inj {recs : List Rec} {τ : Tau} {b1 b2 : Binder} (h1 : BOK re
     | args s' n' => cases hk
     | var s' n' A' C' _ _ _ _ _ _ => cases hk
     | «catch» s' n' u' K' C' _ _ => cases hk
+    | self s' n' C' _ _ _ _ => cases hk
+    | label s' n' C' _ _ _ _ => cases hk
+    | nolabel n' => cases hk
     | glob n' A' hrec' hkA' hg' hd' htau' =>
       simp only at hn
       obtain ⟨R, rest, hR, hRc⟩ := hrec
@@ -207,6 +254,9 @@ theorem mapBinder_inj {recs : List Rec} {τ : Tau} {b1 b2 : Binder} (h1 : BOK re
     | args s' n' => cases hk
     | var s' n' A' C' _ _ _ _ _ _ => cases hk
     | glob n' A' _ _ _ _ _ => cases hk
+    | self s' n' C' _ _ _ _ => cases hk
+    | label s' n' C' _ _ _ _ => cases hk
+    | nolabel n' => cases hk
     | «catch» s' n' u' K' C' hrec' hkK' =>
       simp only at hs
       subst hs
@@ -219,6 +269,52 @@ theorem mapBinder_inj {recs : List Rec} {τ : Tau} {b1 b2 : Binder} (h1 : BOK re
       rw [hkK] at hkK'
       cases hkK'
       rfl
+  | self s n C hrec hg hkey htau =>
+    cases h2 with
+    | free s' n' => cases hk
+    | args s' n' => cases hk
+    | var s' n' A' C' _ _ _ _ _ _ => cases hk
+    | glob n' A' _ _ _ _ _ => cases hk
+    | «catch» s' n' u' K' C' _ _ => cases hk
+    | label s' n' C' _ _ _ _ => cases hk
+    | nolabel n' => cases hk
+    | self s' n' C' hrec' hg' hkey' htau' =>
+      simp only at hs hn
+      subst hs
+      obtain ⟨A, R, hR, hRc⟩ := hrec
+      obtain ⟨A', R', hR', hRc'⟩ := hrec'
+      rw [hR] at hR'
+      cases hR'
+      rw [hRc] at hRc'
+      cases hRc'
+      rw [htau n, htau n'] at hn
+      rw [hg.ok.inj n hkey n' hkey' hn]
+  | label s n C hlc hg hkey htau =>
+    cases h2 with
+    | free s' n' => cases hk
+    | args s' n' => cases hk
+    | var s' n' A' C' _ _ _ _ _ _ => cases hk
+    | glob n' A' _ _ _ _ _ => cases hk
+    | «catch» s' n' u' K' C' _ _ => cases hk
+    | self s' n' C' _ _ _ _ => cases hk
+    | nolabel n' => cases hk
+    | label s' n' C' hlc' hg' hkey' htau' =>
+      simp only at hs hn
+      subst hs
+      rw [hlc] at hlc'
+      cases hlc'
+      rw [htau n, htau n'] at hn
+      rw [hg.ok.inj n hkey n' hkey' hn]
+  | nolabel n =>
+    cases h2 with
+    | free s' n' => cases hk
+    | args s' n' => cases hk
+    | var s' n' A' C' _ _ _ _ _ _ => cases hk
+    | glob n' A' _ _ _ _ _ => cases hk
+    | «catch» s' n' u' K' C' _ _ => cases hk
+    | self s' n' C' _ _ _ _ => cases hk
+    | label s' n' C' _ _ _ _ => cases hk
+    | nolabel n' => simp only at hn; simp [tauN] at hn; rw [hn]
 
 theorem functional_of_inj (f : Binder → Binder) : ∀ (l : List Binder),
     (∀ x ∈ l, ∀ y ∈ l, f x = f y → x = y) → functional (l.map (fun b => (f b, b))) = true
@@ -235,9 +331,9 @@ theorem functional_of_inj (f : Binder → Binder) : ∀ (l : List Binder),
     · simp [he]
 
 /-- `isoCond` from good binders -/
-theorem isoCond_of_bok {recs : List Rec} {τ : Tau} (og : Bool) (occs : List Occ)
+theorem isoCond_of_bok {recs : List Rec} {lc : SPath → Option (List Anc)} {τ : Tau} (og : Bool) (occs : List Occ)
     (hroot : og = false → ∀ A, RecRoot recs [A] → A.remapped = [])
-    (h : ∀ b ∈ allBinders occs, BOK recs τ b) : isoCond τ og occs = true := by
+    (h : ∀ b ∈ allBinders occs, BOK recs lc τ b) : isoCond τ og occs = true := by
   simp only [isoCond, Bool.and_eq_true, List.all_eq_true]
   refine ⟨?_, functional_of_inj (mapBinder τ) _ (fun x hx y hy => mapBinder_inj (h x hx) (h y hy))⟩
   intro b hb
@@ -246,6 +342,9 @@ theorem isoCond_of_bok {recs : List Rec} {τ : Tau} (og : Bool) (occs : List Occ
   | args s n => simp [tauN]
   | var s n A C _ _ _ _ _ _ => simp [keepsName]
   | «catch» s n u K C _ _ => simp [keepsName]
+  | self s n C _ _ _ _ => simp [keepsName]
+  | label s n C _ _ _ _ => simp [keepsName]
+  | nolabel n => simp [tauN]
   | glob n A hrec _ _ _ htau =>
     cases og with
     | true => simp [keepsName]
